@@ -131,6 +131,49 @@ Theorem rfc4180_roundtrip_thm : forall rows : list (list str),
   Forall (fun r => r <> []) rows -> rfc_read (rfc_write rows) = Some rows.
 Proof. intros rows H. unfold rfc_read. rewrite rd_rows by exact H. reflexivity. Qed.
 
+(** the same for the writer of the proposed repair (LF record ends, a lone empty field written as "") *)
+Lemma rd_lf rest st g row acc : st <> QT ->
+  rd (LF :: rest) st g row acc = rd rest RS [] [] (rev (rev g :: row) :: acc).
+Proof. destruct st; intros H; try reflexivity. congruence. Qed.
+
+Lemma rd_row_lf r : r <> [] -> forall rest st row acc, st = RS \/ st = FS ->
+  rd (join [COMMA] (map rfc_field r) ++ LF :: rest) st [] row acc
+  = rd rest RS [] [] (rev (rev r ++ row) :: acc).
+Proof.
+  induction r as [|f r IH]; intros Hne rest st row acc Hst; [congruence|].
+  destruct r as [|f2 r].
+  - cbn [map join]. destruct (rd_field f (LF :: rest) st row acc Hst) as (st' & Hq & E).
+    rewrite E. rewrite rd_lf by exact Hq. rewrite rev_involutive. reflexivity.
+  - cbn [map]. rewrite join_cons2. rewrite <- !app_assoc.
+    destruct (rd_field f ([COMMA] ++ join [COMMA] (rfc_field f2 :: map rfc_field r) ++ LF :: rest)
+                st row acc Hst) as (st' & Hq & E).
+    rewrite E. cbn [app]. rewrite rd_comma by exact Hq. rewrite rev_involutive.
+    change (rfc_field f2 :: map rfc_field r) with (map rfc_field (f2 :: r)).
+    rewrite IH by (discriminate || auto).
+    do 3 f_equal. cbn [rev]. rewrite <- !app_assoc. reflexivity.
+Qed.
+
+Lemma rd_fixed_row r rest acc : r <> [] ->
+  rd (fixed_row r ++ rest) RS [] [] acc = rd rest RS [] [] (r :: acc).
+Proof.
+  intros Hne. unfold fixed_row.
+  assert (G : rd ((join [COMMA] (map rfc_field r) ++ [LF]) ++ rest) RS [] [] acc = rd rest RS [] [] (r :: acc)).
+  { rewrite <- app_assoc. cbn [app]. rewrite rd_row_lf by auto. rewrite app_nil_r, rev_involutive. reflexivity. }
+  destruct r as [|f r]; [congruence|]. destruct f as [|c f]; [|exact G]. destruct r as [|f2 r]; [reflexivity | exact G].
+Qed.
+
+Theorem fixed_writer_roundtrip_thm : forall rows : list (list str),
+  Forall (fun r => r <> []) rows -> rfc_read (fixed_write rows) = Some rows.
+Proof.
+  intros rows H. unfold rfc_read.
+  assert (G : forall acc, rd (fixed_write rows) RS [] [] acc = Some (rev acc ++ rows)).
+  { induction H as [|r rows Hr _ IH]; intros acc.
+    - cbn. rewrite app_nil_r. reflexivity.
+    - unfold fixed_write. cbn [flat_map]. fold (fixed_write rows). rewrite rd_fixed_row by exact Hr.
+      rewrite IH. cbn [rev]. rewrite <- app_assoc. reflexivity. }
+  rewrite G. reflexivity.
+Qed.
+
 (** the hypothesis is satisfiable by a non-trivial input: commas, quotes, CR, LF, empty fields, the text NULL *)
 Example rfc4180_roundtrip_example :
   let rows := [[s_of "a,b"; [DQ]; []]; [[CR; LF]; s_of "NULL"]; [[]]; [[SP; 233; SP]]] in
